@@ -87,6 +87,9 @@ def extra(rep, impl_exe, model_exe, rng, tier):
         viol.append({"kind": "a call returned a different barcode after a history of calls than alone in a fresh process",
                      "call": hist[i], "position_in_history": i, "in_history": in_hist[i], "fresh_process": fresh[hist[i]],
                      "history_file": jf, "replay": "%s < %s | tail -1 ; echo '%s' | %s" % (impl_exe, jf, hist[i], impl_exe)})
+    # (a1) adversarial QR order (see held.qr_adversarial_phase)
+    import held
+    viol += held.qr_adversarial_phase(rep, impl_exe, rng, tier, run_fresh_each)
     # (a2) held barcodes: encode many symbols, keep every returned barcode, re-read all of them at the end
     hjobs = [("hold " + j[4:]) for j in J.jobs(rng, 120 if tier == "quick" else 1200, scale_frac=0.0)]
     # the same symbology repeatedly with different contents and option mixes, back to back
